@@ -3,7 +3,7 @@ import os
 from fractions import Fraction
 
 from .. import common, tlc, traces
-from ..objects import warmup
+from ..objects import warmup, make_object
 
 STAT_CALL = {"NCPR": "get_linear_NCPR", "FCR": "get_linear_FCR", "sigma": "get_linear_sigma", "hydropathy": "get_linear_hydropathy"}
 DEFAULT_GROUPS = [['E', 'D'], ['R', 'K'], ['R', 'K', 'E', 'D'], ['Q', 'N', 'S', 'T', 'G', 'H', 'C'], ['A', 'L', 'M', 'I', 'V'],
@@ -114,9 +114,9 @@ def run(ctx):
     seqs = common.random_sequences(ctx.rng, nseq, maxn, 1)
     trs = []
     for i, s in enumerate(seqs):
+        o, s, how = make_object(lc, s, ctx.rng)
         N = len(s)
-        o = lc.SP(s)
-        hist = warmup(o, ctx.rng) if i % 2 else []
+        hist = ([{"made": how}] if how != "direct" else []) + (warmup(o, ctx.rng) if i % 2 else [])
         ev = []
         ws = {1, N, N + 1, N + 2, N + 3, ctx.rng.randint(1, N), ctx.rng.randint(1, N), min(N, 5), min(N, 6), min(N, 4), min(N, 8)}
         for w in sorted(ws):
@@ -183,7 +183,7 @@ def run(ctx):
         else:
             for e in tr["ev"]:
                 ctx.nontrivial.add(("".join(tr["seq"]), e["w"]))
-    ctx.sample({"trace": {"seq": seqs[0], "ev": [{"q": e["q"], "w": e["w"], "stat": e.get("stat")} for e in trs[0]["ev"][:5]]}})
+    ctx.sample({"trace": {"seq": "".join(trs[0]["seq"]), "ev": [{"q": e["q"], "w": e["w"], "stat": e.get("stat")} for e in trs[0]["ev"][:5]]}})
     defaults.reset()
     ctx.assumptions += ["a one-group composition may come back as a 1-D row", "window sizes <= 0 are outside the statement",
                         "1e-9 relative tolerance"]
